@@ -874,6 +874,62 @@ def launcher_partial_start(sl):
         observe("nodes are launched in order up to the failing one", launched == list(range(fail_at)))
 
 
+def local_host_names(sl):
+    """a target host may be given by name: the REAL net.resolve (socket stubbed) + to_ip_port + Dispatcher. A name that only resolves to
+    loop-back addresses ("localhost", the help text's own example) is this machine: its nodes are started like those of 127.0.0.1, the
+    dispatcher does not wait for a remote daemon that can never join"""
+    import socket as real_socket
+
+    from esrally.utils import net as real_net
+
+    table = {"localhost": ["127.0.0.1"], "es-node-1": ["10.0.0.2"], "debian-style-host": ["127.0.1.1", "10.0.0.5"], "127.0.0.1": ["127.0.0.1"]}
+
+    class Sock:
+        IPPROTO_TCP = real_socket.IPPROTO_TCP
+        AddressFamily = real_socket.AddressFamily
+        gaierror = real_socket.gaierror
+
+        @staticmethod
+        def getaddrinfo(host, port, *a, **kw):
+            if host not in table:
+                raise real_socket.gaierror("Name or service not known")
+            return [(real_socket.AddressFamily.AF_INET, real_socket.SOCK_STREAM, 6, "", (ip, port)) for ip in table[host]]
+
+    class RealNet:
+        @staticmethod
+        def resolve(h):
+            with shadowed(real_net, (), extra={"socket": Sock}):
+                return real_net.resolve(h)
+
+    names = ["127.0.0.1", "localhost", "es-node-1", "debian-style-host"]
+    chosen = [n for n in names if bool(fresh_bool("target_host_%s" % n.replace(".", "_").replace("-", "_")))]
+    if not chosen:
+        return
+    hosts = [{"host": n, "port": 9200} for n in chosen]
+    s = new_system()
+    d_addr = s.create(mechanic.Dispatcher, parent=s.rc_addr)
+    d = s.actors[d_addr.addressDetails]
+    with shadowed(mechanic, (), extra={"create": fake_create, "config": _Config, "paths": _Paths, "metrics": _Metrics, "net": RealNet, "console": _Console,
+                                       "load_team": lambda cfg, external: (None, []), "provisioner": _Prov}):
+        try:
+            pairs = mechanic.to_ip_port(hosts)
+            start = mechanic.StartEngine(Cfg(hosts), None, False, True, False, False)
+            start.hosts = hosts
+            d.receiveMessage(start, s.rc_addr)
+        except Exception as e:  # noqa: BLE001
+            core.note("raised", repr(e))
+            observe("target hosts given by name are accepted", False)
+            return
+    core.trace("hosts", len(chosen))
+    core.note("hosts -> (ip, port)", list(zip(chosen, pairs)))
+    want_remote = sorted({"es-node-1": "10.0.0.2", "debian-style-host": "10.0.0.5"}[n] for n in chosen if n in ("es-node-1", "debian-style-host"))
+    observe("every target host resolves to an address (a loop-back-only name is this machine)", all(ip is not None for ip, _ in pairs))
+    observe("the dispatcher waits for exactly the hosts that are other machines", sorted(d.remotes) == want_remote)
+    starts = [x for x in sends(s) if x[1] == "StartNodes"]
+    if not want_remote:
+        observe("local hosts only (by address or by name): their nodes are started at once", len(starts) >= 1)
+
+
 def docker_partial_start(sl):
     """the real DockerLauncher.start / stop over a model of docker-compose: node k's container does not come up (`up -d` fails) or comes up
     but never gets healthy. Whatever was brought up by a start that fails is taken down again - the caller gets no handle to do it later"""
@@ -1000,6 +1056,10 @@ HARNESSES = [
     Harness("launcher_partial_start", launcher_partial_start, "bounded-exhaustive", lambda tier: [{"nodes": k} for k in (1, 2, 3)], reads=READS,
             stubs=["ProcessLauncher._start_node (records a running pid or fails)", "psutil, telemetry, stop watch"],
             bounds={"nodes on the host": "1..3", "failing launch": "none or any position"}, doc="a start that fails half-way leaves no launched node behind"),
+    Harness("local_host_names", local_host_names, "bounded-exhaustive", lambda tier: [{}], reads=READS + [__import__("esrally.utils.net", fromlist=["x"]).resolve],
+            stubs=["socket.getaddrinfo inside esrally.utils.net (a table of four names)", "mechanic collaborators as in dispatcher_start"],
+            bounds={"target hosts": "any non-empty subset of 127.0.0.1, localhost, a remote name, a name with a 127.0.1.1 and a LAN address"},
+            doc="target hosts given by name: loop-back-only names are local"),
     Harness("docker_partial_start", docker_partial_start, "bounded-exhaustive", lambda tier: [{"nodes": k} for k in (1, 2, 3)],
             reads=READS + [__import__("esrally.mechanic.launcher", fromlist=["x"]).DockerLauncher.start, __import__("esrally.mechanic.launcher", fromlist=["x"]).DockerLauncher.stop],
             stubs=["process.run_subprocess_* over a model of docker-compose (up -d / ps -q / docker ps health filter / down)", "telemetry, stop watch, sleep"],
